@@ -688,3 +688,8 @@ Theorem vote_once_per_term : forall l acts, NoDup l ->
   let w := net_run (net_init l) acts in
   forall v t c c', In (v, t, c) (cast w) -> In (v, t, c') (cast w) -> c = c'.
 Proof. intros l acts ND. exact (I_g3 _ (net_run_inv acts _ (net_init_inv l ND))). Qed.
+
+(** Leaders do get elected in the model (the safety theorems are not vacuous). *)
+Example election_happens :
+  led (net_run (net_init [0; 1; 2]) [ATimeout 0; ADeliver 1%nat; ADeliver 1%nat]) = [(1, 0)].
+Proof. vm_compute. reflexivity. Qed.
